@@ -55,7 +55,7 @@ CLAIMED = {
    note="Unwinds inside a dependency reached through a blsful decoder count. The HKDF zero-output retry loop is unreachable by input and not claimed.",
    ref="DESIGN.md §4 C17"),
  "C01": dict(
-   text="Seeded search over simulated client/signer/verifier runs: request loss, duplication, late duplicates, client retries, signer crash and restart with the key reloaded from its durable encoding (8 key codecs), responses carried in 6 codecs. Invariants: signing succeeds, is byte-identical across retries/duplicates/restarts, every verifier accepts, also after one more encoding round trip of key, public key and signature. The grid key class x 36 message-length classes x scheme x group is enumerated completely in both tiers.",
+   text="Seeded search over simulated client/signer/verifier runs: request loss, duplication, late duplicates, client retries, signer crash and restart with the key reloaded from its durable encoding (8 key codecs), responses carried in 6 codecs. Invariants: signing succeeds, is byte-identical across retries/duplicates/restarts, every verifier accepts, also after one more encoding round trip of key, public key and signature. The grid key class x 38 message-length classes x scheme x group is enumerated completely in both tiers.",
    note="The universal 'for all sk, msg' is reached by the edge-biased grid and seeded content, i.e. by generation; the simulator contributes the retry/restart/duplicate histories and the durable-key reload. Trusted: harness transport/disk.",
    ref="DESIGN.md §4 C01"),
  "C02": dict(
